@@ -51,7 +51,9 @@ func setupMetricsServer(cfg *config.Config, lb *loadbalancer.LoadBalancer) {
 		logger.Info().Int("port", metricsPort).Str("url", fmt.Sprintf("http://localhost:%d%s", metricsPort, metricsPath)).Msg("metrics endpoint")
 		logger.Info().Int("port", metricsPort).Str("url", fmt.Sprintf("http://localhost:%d/health", metricsPort)).Msg("metrics health endpoint")
 		if err := metricsServer.ListenAndServe(); err != nil && err != http.ErrServerClosed {
-			logger.Error().Err(err).Msg("metrics server error")
+			// A configured listener that cannot be served must stop the process:
+			// running on without it would silently drop part of the configuration.
+			logger.Fatal().Err(err).Msg("metrics server error")
 		}
 	}()
 }
@@ -86,7 +88,7 @@ func setupAdminAPIServer(cfg *config.Config, lb *loadbalancer.LoadBalancer) {
 			logger.Info().Msg("admin api authentication disabled")
 		}
 		if err := adminServer.ListenAndServe(); err != nil && err != http.ErrServerClosed {
-			logger.Error().Err(err).Msg("admin api server error")
+			logger.Fatal().Err(err).Msg("admin api server error")
 		}
 	}()
 }
